@@ -133,6 +133,7 @@ def build(case, world: World):
             fname = "disk.hdd.%d.%s.hds" % (j, WH.DEFAULT_TOP)
             img = WH.render_plain(lay, view, fname) if x["plain"] else WH.render(cfg, lay, view, name=fname)
             world.fs.add(d + "/disk.hdd/" + fname, img.files[fname])
+            world.note_fields(img, fname, d + "/disk.hdd/" + fname)
             paths.append(d + "/disk.hdd/" + fname)
         else:
             name = x["name"]
